@@ -194,9 +194,70 @@ func reachSets(fn *ssa.Function, scr ssa.Value, start *ssa.BasicBlock, init ivse
 	work := []*ssa.BasicBlock{start}
 	visits := map[*ssa.BasicBlock]int{}
 	condSplit := func(cond ssa.Value, set ivset) (t, f ivset, ok bool) {
+		// membership of the scrutinised character in a read-only table: `v, ok := table[c]` branches on ok;
+		// `table[c] != zero` (an array of kinds) is handled below
+		if curProgram != nil {
+			if tab, idx, isOK, _ := tableLookup(curProgram, cond); tab != nil && isOK && sameScrutinee(stripChange(idx), scr) {
+				keys := tab.keysWhere(func(tableEntry) bool { return true })
+				in := ivPoints(keys...)
+				var tt ivset
+				for _, k := range in {
+					tt = tt.union(set.intersectRange(k[0], k[1]))
+				}
+				ff := set
+				for _, k := range keys {
+					ff = ff.minusPoint(k)
+				}
+				return tt.norm(), ff.norm(), true
+			}
+		}
 		bo, isB := cond.(*ssa.BinOp)
 		if !isB {
 			return nil, nil, false
+		}
+		if curProgram != nil && (bo.Op == token.EQL || bo.Op == token.NEQ) {
+			// table[c] ==/!= constant
+			for _, pair := range [][2]ssa.Value{{bo.X, bo.Y}, {bo.Y, bo.X}} {
+				tab, idx, isOK, field := tableLookup(curProgram, pair[0])
+				kc, isC := pair[1].(*ssa.Const)
+				if tab == nil || isOK || field != "" || !isC || kc.Value == nil || !sameScrutinee(stripChange(idx), scr) {
+					continue
+				}
+				if _, isArr := tab.g.Type().(*types.Pointer).Elem().Underlying().(*types.Array); !isArr {
+					continue
+				}
+				eqKeys := tab.keysWhere(func(e tableEntry) bool {
+					c2, ok := e.val.(*ssa.Const)
+					return ok && c2.Value != nil && constant.Compare(c2.Value, token.EQL, kc.Value)
+				})
+				// array entries that were never stored hold the zero value
+				zero := constant.Compare(kc.Value, token.EQL, constant.MakeInt64(0))
+				stored := map[int64]bool{}
+				for _, k := range tab.keysWhere(func(tableEntry) bool { return true }) {
+					stored[k] = true
+				}
+				var eq ivset
+				for _, k := range eqKeys {
+					eq = eq.union(set.intersectRange(k, k))
+				}
+				if zero {
+					rest := set
+					for k := range stored {
+						rest = rest.minusPoint(k)
+					}
+					eq = eq.union(rest)
+				}
+				ne := set
+				for _, iv := range eq.norm() {
+					for x := iv[0]; x <= iv[1]; x++ {
+						ne = ne.minusPoint(x)
+					}
+				}
+				if bo.Op == token.EQL {
+					return eq.norm(), ne.norm(), true
+				}
+				return ne.norm(), eq.norm(), true
+			}
 		}
 		op := bo.Op
 		var k int64
